@@ -283,6 +283,14 @@ def load_findings():
     return json.load(open(p))
 
 
+def _gramrun_dropped():
+    try:
+        from . import gramrun
+        return {k: v for k, v in gramrun.DROPPED.items() if v}
+    except Exception:       # noqa
+        return {}
+
+
 class Run:
     def __init__(self, pid, tier, seed):
         self.pid, self.tier, self.seed = pid, tier, seed
@@ -425,6 +433,7 @@ class Run:
                 'known_findings_seen': sorted(seen_known),
                 'repo': repo_state(),
                 **self.extra,
+                **_gramrun_dropped(),
             },
             'assumptions': self.assumptions,
             'wall_s': round(time.time() - self.t0, 2),
